@@ -94,7 +94,7 @@ def models_for(pid, tier):
                 ('MC_Reader', 'MCdev_Reader_nodrain.cfg', 'fail'), ('MC_Reader', 'MCdev_Reader_stale.cfg', 'fail')],
         'C02': [('MC_Robust', 'MC_Robust.cfg', 'pass'), ('MC_Flow', 'MC_Flow.cfg', 'pass'), ('MC_Utf8', 'MC_Utf8.cfg', 'pass')],
         'C03': [('MC_Writer', 'MC_Writer_deep.cfg' if deep else 'MC_Writer.cfg', 'pass'), ('MC_Writer', 'MCdev_Writer_more.cfg', 'fail'),
-                ('MC_Writer', 'MCdev_Writer_eof0.cfg', 'fail')],
+                ('MC_Writer', 'MCdev_Writer_eof0.cfg', 'fail'), ('MC_Writer', 'MCdev_Writer_leak.cfg', 'fail')],
         'C04': [('MC_Framer', 'MC_Framer_deep.cfg' if deep else 'MC_Framer.cfg', 'pass'), ('MC_Framer', 'MC_Framer_p5.cfg', 'pass'),
                 ('MC_Framer', 'MCdev_Framer_header.cfg', 'fail'), ('MC_Framer', 'MCdev_Framer_closer.cfg', 'fail')],
         'C05': [('MC_Framer', 'MC_Framer.cfg', 'pass')],
